@@ -19,7 +19,8 @@ CLAUSES = {
             "Seq2": "PairAdaptersBothOrNeither", "Occurrences": "PairKeptOrRedirectedAsUnit",
             "DemuxFile": "PairAdaptersSameRank", "Name1": "PairAdaptersSameRank", "Name2": "PairAdaptersSameRank",
             "Report.WithAdapters": "PairAdaptersBothOrNeither"},
-    "C15": {"DemuxFile": "FileOfLastMatchName", "Dest": "UnknownOrUntrimmedOrNowhere", "PairSync": "UnknownOrUntrimmedOrNowhere", "Occurrences": "MultisetEqualsUndemultiplexedRun"},
+    "C15": {"Demux.FileForEveryName": "FileForEveryNameEvenIfEmpty", "Demux.MultisetEqualsPlainRun": "MultisetEqualsPlainRunOfTheSameCommand",
+            "DemuxFile": "FileOfLastMatchName", "Dest": "UnknownOrUntrimmedOrNowhere", "PairSync": "UnknownOrUntrimmedOrNowhere", "Occurrences": "MultisetEqualsUndemultiplexedRun"},
     "C16": {"Seq1": "KeepsStrictlyBetterOrientation", "Seq2": "KeepsStrictlyBetterOrientation", "Name1": "NameMarked",
             "Name2": "NameMarked", "Report.ReverseComplemented": "CountedAsReverseComplemented", "Info.RcColumn": "NameMarked",
             "Dest": "LaterStagesUseChosenOrientation"},
